@@ -1076,3 +1076,133 @@ func c05TimeSiblings(p *load.Program, r *oblig.Report) {
 	r.Check(strings.Join(a, " | ") == strings.Join(b, " | ") && guard(root) == guard(proto) && len(a) == 2, rule, "kafka.makeTime and protocol.makeTime agree (zero time for t <= 0, Unix milliseconds otherwise)", p.Pos(proto.Pos()),
 		strings.Join(a, " | ")+" when "+guard(root), strings.Join(b, " | ")+" when "+guard(proto))
 }
+
+// c11ApiVersionsCount: the inline ApiVersions decoder sizes its result from the announced count; the count must be
+// proven non-negative and bounded by the bytes of the response before the allocation (a null array panicked, a large
+// count allocated before the first read failed). Decided with the wire-length taint analysis restricted to
+// readApiVersionsResponse: the count comes back through the pointer handed to readInt32, `size` and what the readers
+// return are the bounds.
+func c11ApiVersionsCount(p *load.Program, r *oblig.Report) {
+	const rule = "C11.R13 the inline ApiVersions decoder accounts for the whole frame"
+	fn := p.Func("", "(*Conn).readApiVersionsResponse")
+	if fn == nil {
+		r.Lost(rule, "kafka.(*Conn).readApiVersionsResponse")
+		return
+	}
+	var isSize func(v ssa.Value) bool
+	isSize = func(v ssa.Value) bool {
+		switch x := v.(type) {
+		case *ssa.Parameter:
+			return x.Parent() == fn && types.Identical(x.Type(), types.Typ[types.Int])
+		case *ssa.Extract:
+			if c, ok := x.Tuple.(*ssa.Call); ok && x.Index == 0 && c.Call.StaticCallee() != nil && strings.HasPrefix(an.RefFuncName(c.Call.StaticCallee()), "readInt") {
+				return true
+			}
+		case *ssa.Phi:
+			for _, e := range x.Edges {
+				if !isSize(e) {
+					return false
+				}
+			}
+			return len(x.Edges) > 0
+		case *ssa.BinOp:
+			if x.Op == token.QUO {
+				if _, isK := x.Y.(*ssa.Const); isK {
+					return isSize(x.X)
+				}
+			}
+		case *ssa.UnOp:
+			if a, ok := x.X.(*ssa.Alloc); ok && x.Op == token.MUL {
+				n := 0
+				for _, ref := range *a.Referrers() {
+					if st, isSt := ref.(*ssa.Store); isSt && st.Addr == ssa.Value(a) {
+						n++
+						if !isSize(st.Val) {
+							return false
+						}
+					}
+				}
+				return n > 0
+			}
+		}
+		return false
+	}
+	cfg := an.TaintConfig{
+		InScope: func(f *ssa.Function) bool { return f == fn },
+		OutSource: func(c *ssa.Call) (int, string, bool) {
+			if f := c.Call.StaticCallee(); f != nil && an.RefFuncName(f) == "readInt32" && f.Pkg == p.SSAPkg("") {
+				return 2, "readInt32", true
+			}
+			return 0, "", false
+		},
+		IsBoundExpr: func(v ssa.Value) bool {
+			if _, isK := v.(*ssa.Const); isK {
+				return true
+			}
+			return isSize(v)
+		},
+	}
+	sinks := an.RunTaint([]*ssa.Function{fn}, cfg)
+	n := 0
+	for _, s := range sinks {
+		if s.Kind != "make-len" && s.Kind != "make-cap" {
+			continue
+		}
+		n++
+		facts := append([]string{fmt.Sprintf("lower bound proven: %v, upper bound proven: %v", s.Lo, s.Hi)}, s.Why...)
+		r.Check(s.Lo && s.Hi, rule, "kafka.(*Conn).readApiVersionsResponse → the announced number of entries is checked against the bytes left before the slice is made", p.Pos(s.Ins.Pos()),
+			"if arrSize < 0 || int(arrSize) > size/6 { error }", fmt.Sprintf("non-negative=%v bounded=%v", s.Lo, s.Hi), facts...)
+	}
+	r.RequireCount(rule+" (count sink)", n, 1)
+}
+
+// c20RequestedOnly: Client.ListOffsets files every partition of the response under the entry prepared for it from the
+// request. A partition that was not requested has no entry: writing through the zero value panics (nil offsets map)
+// or fabricates a result for partition 0. Decided: every lookup in the table of prepared entries is a comma-ok lookup
+// whose miss edge does not reach a write through the value.
+func c20RequestedOnly(p *load.Program, r *oblig.Report, rule string) {
+	fn := p.Func("", "(*Client).ListOffsets")
+	if fn == nil {
+		r.Lost(rule, "kafka.(*Client).ListOffsets")
+		return
+	}
+	n := 0
+	var bad []string
+	an.EachInstr(fn, func(ins ssa.Instruction) {
+		lk, ok := ins.(*ssa.Lookup)
+		if !ok {
+			return
+		}
+		mt, isMap := lk.X.Type().Underlying().(*types.Map)
+		if !isMap || !an.NamedIs(mt.Elem(), load.ModPath, "PartitionOffsets") {
+			return
+		}
+		n++
+		if !lk.CommaOk {
+			bad = append(bad, "the lookup at "+p.Pos(lk.Pos())+" does not test whether the partition was requested")
+			return
+		}
+		tested := false
+		for _, ref := range *lk.Referrers() {
+			if ex, isEx := ref.(*ssa.Extract); isEx && ex.Index == 1 {
+				for _, u := range *ex.Referrers() {
+					if _, isIf := u.(*ssa.If); isIf {
+						tested = true
+					}
+					if un, isUn := u.(*ssa.UnOp); isUn && un.Op == token.NOT {
+						for _, u2 := range *un.Referrers() {
+							if _, isIf := u2.(*ssa.If); isIf {
+								tested = true
+							}
+						}
+					}
+				}
+			}
+		}
+		if !tested {
+			bad = append(bad, "the result of the lookup at "+p.Pos(lk.Pos())+" is used whether or not the partition was requested")
+		}
+	})
+	sort.Strings(bad)
+	r.Check(n >= 1 && len(bad) == 0, rule, "kafka.(*Client).ListOffsets files a partition of the response only under an entry prepared from the request", p.Pos(fn.Pos()), "partition, requested := partitionOffsets[key]; if !requested { continue }", strings.Join(bad, "; "))
+}
